@@ -356,6 +356,7 @@ def run_property(pid):
     results = {}
     inconclusive = []
     violations = []  # (harness_fn, failed_checks, replay_path)
+    unreplayed = []
     known_hits = []
     kani_out = ""
     build_s = 0.0
@@ -444,7 +445,12 @@ def run_property(pid):
                 else:
                     unknown.append(fc)
             if unknown:
-                # replay natively before reporting
+                # Replay natively before reporting.  Once one violation of this property has been reproduced, further
+                # failing harnesses are replayed only while the replay budget lasts; the rest are listed as
+                # unreplayed (informational) -- the exit status is already 1.
+                if violations and time.time() - t_start > float(os.environ.get("VERIF_REPLAY_BUDGET_S", "900")):
+                    unreplayed.append((fn, unknown))
+                    continue
                 def order_pbs(pl):
                     a = [p for p in pl if p["check_kind"] != "cover" and any(p["check_desc"] == fc["desc"] for fc in unknown)]
                     b = [p for p in pl if p["check_kind"] != "cover" and p not in a]
@@ -561,6 +567,9 @@ def run_property(pid):
     for fn, fcs, path in violations:
         print(f"VIOLATION property={pid} replay={path}")
         log(f"  harness {fn}: " + "; ".join(fc["desc"] for fc in fcs))
+    for fn, fcs in unreplayed:
+        print(f"ALSO-FAILING property={pid} harness={fn} (solver counterexample not replayed: replay budget used) "
+              + "; ".join(fc["desc"] for fc in fcs)[:300])
     if violations:
         return 1
     if inconclusive:
